@@ -113,10 +113,11 @@ def make_table_forecaster():
     from sktime.forecasting.base._sktime import _SktimeForecaster, _OptionalForecastingHorizonMixin
 
     class TableForecaster(_OptionalForecastingHorizonMixin, _SktimeForecaster):
-        def __init__(self, table=(0,), n=8, tag="t"):
+        def __init__(self, table=(0,), n=8, tag="t", origin=0):
             self.table = table
             self.n = n
             self.tag = tag
+            self.origin = origin      # label of the first observation (the series is y[label] = 1000 + label - origin)
             super(TableForecaster, self).__init__()
 
         def fit(self, y, X=None, fh=None):
@@ -124,7 +125,8 @@ def make_table_forecaster():
             self._set_fh(fh)
             self._n_epoch = len(y)
             LOG.setdefault(self.tag, []).append(
-                {"ev": "fit", "table": list(self.table), "first": int(y.index[0]), "last": int(y.index[-1])})
+                {"ev": "fit", "table": list(self.table), "first": int(y.index[0]) - self.origin,
+                 "last": int(y.index[-1]) - self.origin})
             self._is_fitted = True
             return self
 
@@ -134,7 +136,7 @@ def make_table_forecaster():
             f = self._n_epoch - (self.n - F) + 1
             off = float(self.table[f - 1]) if 1 <= f <= F and len(self._y) == self._n_epoch \
                 else 0.001 * self._n_epoch
-            return pd.Series([1000.0 + int(t) + off for t in idx], index=idx)
+            return pd.Series([1000.0 + int(t) - self.origin + off for t in idx], index=idx)
 
     return TableForecaster
 
